@@ -40,6 +40,7 @@ ObsViol(r) ==
         <<"C07", "set_delivered_twice", P_NoDup(c, g)>>,
         <<"C07", "not_every_set_delivered_before_end", P_AllDelivered(c, g, res)>>,
         <<"C07", "single_worker_order", P_InOrder1(c, g)>>,
+        <<"C07", "waiting_consumer_never_served", P_Served(c, g, res)>>,
         <<"C15", "error_delivered_once", P_ErrOnce(c, g)>>,
         <<"C15", "set_read_after_error_delivered", P_ErrNoLater(c, g)>>,
         <<"C15", "draining_consumer_gets_earlier_sets_error_end", P_ErrDrain(c, g, res)>>,
